@@ -81,6 +81,59 @@ def single_traits(tier):
     return cases
 
 
+
+OPTION_LEAVES = [
+    # (name, type, NPO?) -- NPO types stay Option<T>; the others must become COption<T>
+    ("ref", "&u64"), ("barefn", "extern \"C\" fn(u32) -> u32"), ("nonnull", "::core::ptr::NonNull<u8>"), ("box", "Box<u64>"),
+    ("nzu32", "::core::num::NonZeroU32"), ("nzi64", "::core::num::NonZeroI64"),
+    ("u64", "u64"), ("bool", "bool"), ("f64", "f64"), ("p2", "P2"), ("rawptr", "*const u8"), ("usize", "usize"), ("i8", "i8"),
+    ("cbox", "CBox<'static, u64>"), ("cvec", "CVec<u8>"), ("csliceref", "CSliceRef<'static, u8>"), ("carc", "CArc<u64>"), ("coption", "COption<u8>"),
+]
+RESULT_LEAVES = [
+    ("u64_u8", "u64", "u8"), ("cbox_i32", "CBox<'static, u64>", "i32"), ("p2_p2", "P2", "P2"), ("bool_u8", "bool", "u8"),
+    ("cvec_u16", "CVec<u8>", "u16"), ("rawptr_u8", "*const u8", "u8"),
+]
+
+
+def leaf_cases():
+    out = []
+    for name, ty in OPTION_LEAVES:
+        for pos in ("arg", "ret"):
+            for rv, recv in (("ref", "&self"), ("mut", "&mut self"), ("own", "self")):
+                tn = "Ol_%s_%s_%s" % (name, pos, rv)
+                if pos == "arg":
+                    body = "#[cglue_trait]\npub trait %s { fn m(%s, a0: Option<%s>) -> u64; }" % (tn, recv, ty)
+                else:
+                    if "&" in ty and rv == "own":
+                        continue
+                    body = "#[cglue_trait]\npub trait %s { fn m(%s, a0: u32) -> Option<%s>; }" % (tn, recv, ty)
+                out.append(("Option<%s> in %s position, recv %s" % (ty, pos, rv), tn, body + "\n" + probes(tn, rv == "mut", rv == "own")))
+    for name, a, b in RESULT_LEAVES:
+        for pos in ("arg", "ret"):
+            tn = "Rl_%s_%s" % (name, pos)
+            if pos == "arg":
+                body = "#[cglue_trait]\npub trait %s { fn m(&self, a0: Result<%s, %s>) -> u64; }" % (tn, a, b)
+            else:
+                body = "#[cglue_trait]\npub trait %s { fn m(&mut self, a0: u32) -> Result<%s, %s>; }" % (tn, a, b)
+            out.append(("Result<%s, %s> in %s position" % (a, b, pos), tn, body + "\n" + probes(tn, pos == "ret", False)))
+    # int_result attribute combinations: trait-level plain + method-level alias and the reverse.
+    # A user alias of Result is only recognisable where an int_result(Alias) attribute names it.
+    combos = [
+        ("IrMixA", "#[int_result]", [("#[int_result(AliasRes)]", "AliasRes<u64, std::io::Error>"), ("", "Result<u64, std::io::Error>"), ("#[no_int_result]", "Result<u64, u8>")]),
+        ("IrMixB", "#[int_result(AliasRes)]", [("#[int_result]", "Result<u64, std::io::Error>"), ("", "AliasRes<(), std::io::Error>"), ("#[no_int_result]", "Result<P2, u8>")]),
+        ("IrMixC", "", [("#[int_result]", "Result<u64, ()>"), ("#[int_result(AliasRes)]", "AliasRes<P2, std::fmt::Error>"), ("", "Result<u64, u8>")]),
+    ]
+    for tn, tattr, ms in combos:
+        lines = ["#[cglue_trait]"] + ([tattr] if tattr else []) + ["pub trait %s {" % tn]
+        for i, (mattr, ty) in enumerate(ms):
+            if mattr:
+                lines.append("    " + mattr)
+            lines.append("    fn m%d(&%sself, a0: u32) -> %s;" % (i, "mut " if i % 2 else "", ty))
+        lines.append("}")
+        out.append(("int_result attribute combination %s" % tn, tn, "\n".join(lines) + "\n" + probes(tn, True, False)))
+    return out
+
+
 def world_defs():
     """trait / group definitions of the lifecycle world (groups, aliased generics, wrapped
     associated types of all six kinds)"""
@@ -192,8 +245,11 @@ def main():
         body = gen.emit_trait(t) + "\n" + probes(t.name, t.has_mut, t.has_own)
         cases.append((desc, t.name, body))
     for t in gen.multi_method_traits(None, tier) + gen.int_result_traits(None, tier):
+        if any((m.int_ret or "").startswith("plain_io") for m in t.methods):
+            continue    # CResult<_, io::Error>: io::Error is not a C-representable leaf type, outside C03's premise
         body = gen.emit_trait(t) + "\n" + probes(t.name, t.has_mut, t.has_own)
         cases.append(("corpus trait " + t.name, t.name, body))
+    cases += leaf_cases()
     cases.append(("lifecycle world: groups H, HR, Q (aliased generic instantiations), six kinds of wrapped associated types", "World", world_defs() + WORLD_PROBES))
     cases.append(("generic / lifetime / unwrapped / wrap_with traits and a generic group", "Extra", EXTRA))
     cases.append(("library wrapper types", "Lib", LIB_PROBES))
